@@ -229,3 +229,56 @@ Section Slicing.
   (* coordinate triangles of an indexed mesh (None where an index is out of range) *)
   Definition mesh_tris (vs : list (vec3 F)) (fs : list face) : list (option (tri F)) := map (lookup3 vs) fs.
 End Slicing.
+
+(* ---- face arrays with negative (wrapping) entries ------------------------------------------------------------------
+   NumPy accepts an index i with -k <= i < 0 for k vertices and reads vertex k + i.  slice_faces_plane reads coordinates and
+   signs through such entries, but it copies the RAW entries into the faces it hands to unique_bincount, and np.bincount
+   raises ValueError on a negative value.  So a wrapping entry is harmless exactly as long as it does not survive into an
+   output face: all three entries of a kept face survive, entries k+1 and k+2 of a quad face, entry k of a cut triangle. *)
+Definition zface := (Z * Z * Z)%type.
+Definition mkzface (a b c : Z) : zface := (a, b, c).
+Definition zget (f : zface) (k : nat) : Z :=
+  match k with 0%nat => fst (fst f) | 1%nat => snd (fst f) | _ => snd f end.
+Definition znonneg (f : zface) : bool := ((0 <=? zget f 0) && (0 <=? zget f 1) && (0 <=? zget f 2))%Z.
+Definition zface_to_nat (f : zface) : face := mkface (Z.to_nat (zget f 0)) (Z.to_nat (zget f 1)) (Z.to_nat (zget f 2)).
+Definition norm_face (nv : nat) (f : zface) : option face :=
+  match python_index nv (zget f 0), python_index nv (zget f 1), python_index nv (zget f 2) with
+  | Some a, Some b, Some c => Some (mkface a b c)
+  | _, _, _ => None
+  end.
+Definition neg_survives (f : zface) (s : sgn3) (m : bool) : bool :=
+  match face_case s m with
+  | Keep => negb (znonneg f)
+  | Drop => false
+  | CQuad k => ((zget f ((k + 1) mod 3) <? 0) || (zget f ((k + 2) mod 3) <? 0))%Z
+  | CTri k => (zget f k <? 0)%Z
+  end.
+
+Section SlicingZ.
+  Context {F : Type} (O : NumOps F).
+
+  Definition slice_faces_plane_z (tol eps : F) (vs : list (vec3 F)) (fsz : list zface) (n o : vec3 F)
+             (face_index : option (list nat)) : result (mesh_out F) :=
+    if (length vs =? 0)%nat then
+      (* inputs handed back; a face array with negative entries and no vertices is not modelled (never a mesh) *)
+      if forallb znonneg fsz then Ok (MkOut vs (map zface_to_nat fsz) (seq 0 (length fsz))) else Raise OtherError
+    else
+      match all_some (map (norm_face (length vs)) fsz) with
+      | None => Raise IndexError
+      | Some fsn =>
+          rbind (mask_of (length fsn) face_index) (fun mask =>
+            let dots := map (snapped_dot O tol n o) vs in
+            let vsigns := map (vsign O tol) dots in
+            match resolve vs dots vsigns fsn mask with
+            | None => Raise IndexError
+            | Some fds =>
+                if existsb (fun p => neg_survives (fst p) (fd_s (snd p)) (fd_m (snd p))) (zip fsz fds)
+                then Raise ValueError
+                else Ok (slice_fds O eps vs fds)
+            end)
+      end.
+
+  Definition slice_triangles_by_plane_z (vs : list (vec3 F)) (fsz : list zface) (ref n : vec3 F)
+             (faces_to_slice : option (list bool)) : result (mesh_out F) :=
+    slice_faces_plane_z (merge_tol O) (patch_eps O) vs fsz n ref (option_map flatnonzero faces_to_slice).
+End SlicingZ.
